@@ -11,7 +11,7 @@ def gen_scenario(rng, big=False):
         ncmd = rng.randint(1, 3)
         for _ in range(ncmd):
             if rng.random() < 0.45:
-                st = 1 if rng.random() < 0.85 else 0
+                st = rng.choice([1, 1, 1, 1, 1, 1, 2, 0])
                 lines.append("t%d write %d" % (t, st)); has_writer = True
             else:
                 lines.append("t%d read %d" % (t, rng.choice([0, 0, 1, 2])))
